@@ -152,7 +152,15 @@ const PK65_VARIANTS: [&str; 6] = ["y", "y+1", "p-y", "y-1", "x<->y", "x+1"];
 const UNLOCK_CANDIDATES: [&str; 4] = ["own key, same form", "own key, other form", "next key", "negated point"];
 
 struct Tables {
+    /// core keys followed by the byte-pattern keys (`n_core_keys` = number of core keys)
     keys: Vec<KeyRow>,
+    /// the derived alphabets (hashes, x candidates, pk65, unlock) use the core keys only
+    n_core_keys: usize,
+    /// Base58 strings obtained by byte-level truncation / extension of valid Base58Check data
+    alias_strings: Vec<(String, String)>,
+    alias_bases: Vec<String>,
+    /// (label, leading run, trailing run) of hash bytes equal to the prefix byte of the case
+    dyn_hashes: Vec<(&'static str, usize, usize)>,
     /// number of leading keys used by the (prefix × key × …) unlocking-script product
     n_unlock_keys: usize,
     hashes: Vec<(String, [u8; 20])>,
@@ -175,6 +183,253 @@ fn ordinary(tag: &[u8]) -> BigUint {
     } else {
         v
     }
+}
+
+// --- byte-pattern private keys -------------------------------------------------
+//
+// A key byte that coincides with a framing byte of the WIF payload (version byte
+// 0x80 in front, compression flag 0x01 behind, the zero bytes Base58 treats
+// specially) must not be confused with the framing. The alphabet places each
+// framing byte as a run at the start, a run at the end, alone at interior
+// positions and everywhere; the other bytes come from a filler that contains no
+// framing byte, so that the pattern is exact.
+
+const FRAMING_QUICK: [u8; 3] = [0x80, 0x01, 0x00];
+const FRAMING_THOROUGH: [u8; 5] = [0x80, 0x01, 0x00, 0xef, 0xff];
+const PATTERN_POS_QUICK: [usize; 4] = [1, 15, 16, 30];
+
+fn filler32() -> [u8; 32] {
+    let mut f = rh::sha256(b"bsvmc/C07/pattern filler");
+    for b in f.iter_mut() {
+        if [0x00u8, 0x01, 0x80, 0xef, 0xff, 0x08, 0x10].contains(b) {
+            *b ^= 0x5a;
+        }
+    }
+    // keep the value far below n whatever follows
+    f[0] = 0x40 | (f[0] & 0x3f);
+    if [0x00u8, 0x01, 0x80, 0xef, 0xff, 0x08, 0x10].contains(&f[0]) {
+        f[0] ^= 0x1a;
+    }
+    f
+}
+
+fn pattern_keys(tier: Tier) -> Vec<(String, [u8; 32])> {
+    let fill = filler32();
+    let framing: &[u8] = if tier.is_thorough() { &FRAMING_THOROUGH } else { &FRAMING_QUICK };
+    let positions: Vec<usize> = if tier.is_thorough() { (1..=30).collect() } else { PATTERN_POS_QUICK.to_vec() };
+    let mut v: Vec<(String, [u8; 32])> = Vec::new();
+    for &f in framing {
+        for r in 1..=3usize {
+            let mut k = fill;
+            k[..r].fill(f);
+            v.push((format!("pattern: first {} byte(s) {:02x}", r, f), k));
+            let mut k = fill;
+            k[32 - r..].fill(f);
+            v.push((format!("pattern: last {} byte(s) {:02x}", r, f), k));
+        }
+        for &pos in &positions {
+            let mut k = fill;
+            k[pos] = f;
+            v.push((format!("pattern: byte {} is {:02x}", pos, f), k));
+        }
+        let mut k = fill;
+        k[0] = f;
+        k[31] = f;
+        v.push((format!("pattern: first and last byte {:02x}", f), k));
+        v.push((format!("pattern: every byte {:02x}", f), [f; 32]));
+    }
+    for (lead, trail) in [(1usize, 1usize), (2, 2), (1, 2)] {
+        let mut k = fill;
+        k[..lead].fill(0x80);
+        k[32 - trail..].fill(0x01);
+        v.push((format!("pattern: first {} byte(s) 80 and last {} byte(s) 01", lead, trail), k));
+    }
+    // framing bytes that appear only across a byte boundary of the hexadecimal form ("0808" contains "80", "1010" contains "01")
+    v.push(("pattern: every byte 08 (hex contains 80 across byte boundaries)".into(), [0x08; 32]));
+    v.push(("pattern: every byte 10 (hex contains 01 across byte boundaries)".into(), [0x10; 32]));
+    let mut k = fill;
+    k[0] = 0x08;
+    k[1] = 0x08;
+    k[30] = 0x10;
+    k[31] = 0x10;
+    v.push(("pattern: first two bytes 08, last two bytes 10".into(), k));
+    // only scalars in [1, n-1]
+    let n = secp::n();
+    v.retain(|(_, k)| {
+        let d = secp::from_be(k);
+        !d.is_zero() && d < n
+    });
+    v
+}
+
+// --- byte-level truncation / extension of Base58Check data --------------------------
+//
+// Bases are complete (payload || checksum) byte strings of valid addresses and WIFs,
+// chosen by a counter search with the reference so that the checksum ends or starts
+// with zero bytes (and, independently, so that the payload has zero / 0x80 bytes right
+// behind the prefix). Every base is then cut and extended at both ends byte by byte;
+// the reference decoders decide what each resulting string is.
+
+#[derive(Clone, Copy, PartialEq)]
+enum Cks {
+    Any,
+    EndsZero(usize),
+    StartsZero(usize),
+}
+
+impl Cks {
+    fn holds(self, c: &[u8]) -> bool {
+        match self {
+            Cks::Any => true,
+            Cks::EndsZero(k) => c[4 - k..4].iter().all(|b| *b == 0),
+            Cks::StartsZero(k) => c[..k].iter().all(|b| *b == 0),
+        }
+    }
+    fn name(self) -> String {
+        match self {
+            Cks::Any => "any checksum".into(),
+            Cks::EndsZero(k) => format!("checksum ends in {} zero byte(s)", k),
+            Cks::StartsZero(k) => format!("checksum starts with {} zero byte(s)", k),
+        }
+    }
+}
+
+#[derive(Clone, Copy)]
+enum BaseKind {
+    /// prefix, number of leading zero bytes of the hash
+    Addr(u8, usize),
+    /// compressed, forced first key byte
+    Wif(bool, Option<u8>),
+}
+
+/// First counter value (from 0 upwards) for which the checksum condition holds: payload || checksum.
+fn search_base(kind: BaseKind, cond: Cks) -> (String, Vec<u8>) {
+    let fill = filler32();
+    for ctr in 0u32..=u32::MAX {
+        let (label, mut data) = match kind {
+            BaseKind::Addr(prefix, lz) => {
+                let mut h = [0u8; 20];
+                h.copy_from_slice(&fill[..20]);
+                h[..lz].fill(0);
+                h[8..12].copy_from_slice(&ctr.to_be_bytes());
+                let mut d = vec![prefix];
+                d.extend_from_slice(&h);
+                (format!("address, prefix {:02x}, hash with {} leading zero byte(s), counter {}", prefix, lz, ctr), d)
+            }
+            BaseKind::Wif(compressed, lead) => {
+                let mut k = fill;
+                if let Some(b) = lead {
+                    k[0] = b;
+                }
+                k[8..12].copy_from_slice(&ctr.to_be_bytes());
+                let mut d = vec![0x80u8];
+                d.extend_from_slice(&k);
+                if compressed {
+                    d.push(0x01);
+                }
+                (format!("WIF ({}), first key byte {:02x}, counter {}", if compressed { "compressed" } else { "uncompressed" }, k[0], ctr), d)
+            }
+        };
+        let c = rh::sha256d(&data);
+        if cond.holds(&c[..4]) {
+            data.extend_from_slice(&c[..4]);
+            return (format!("{}, {}", label, cond.name()), data);
+        }
+    }
+    unreachable!("C07 setup: no counter satisfies the checksum condition")
+}
+
+const ALIAS_TRANSFORMS: usize = 21;
+
+fn alias_transform(data: &[u8], t: usize) -> (String, Vec<u8>) {
+    let n = data.len();
+    match t {
+        0 => ("unchanged".into(), data.to_vec()),
+        1..=4 => (format!("last {} byte(s) dropped", t), data[..n - t].to_vec()),
+        5..=8 => (format!("first {} byte(s) dropped", t - 4), data[t - 4..].to_vec()),
+        9..=12 => {
+            let mut d = data.to_vec();
+            d.extend(std::iter::repeat(0u8).take(t - 8));
+            (format!("{} zero byte(s) appended", t - 8), d)
+        }
+        13..=16 => {
+            let mut d = vec![0u8; t - 12];
+            d.extend_from_slice(data);
+            (format!("{} zero byte(s) prepended", t - 12), d)
+        }
+        17 => {
+            let mut d = data[..n - 5].to_vec();
+            d.extend_from_slice(&data[n - 4..]);
+            ("last payload byte dropped, checksum kept".into(), d)
+        }
+        18 | 19 => {
+            let b = if t == 18 { 0x00 } else { 0x01 };
+            let mut d = data[..n - 4].to_vec();
+            d.push(b);
+            d.extend_from_slice(&data[n - 4..]);
+            (format!("byte {:02x} inserted between payload and checksum", b), d)
+        }
+        _ => {
+            let mut d = data.to_vec();
+            d.push(0x01);
+            ("byte 01 appended".into(), d)
+        }
+    }
+}
+
+fn alias_jobs(tier: Tier) -> Vec<(BaseKind, Cks)> {
+    let one = [Cks::Any, Cks::EndsZero(1), Cks::StartsZero(1)];
+    let two = [Cks::EndsZero(2), Cks::StartsZero(2)];
+    let prefixes: &[u8] = if tier.is_thorough() { &[0x00, 0x6f, 0x05, 0x80, 0xff] } else { &[0x00, 0x6f] };
+    let mut jobs = vec![];
+    for &p in prefixes {
+        for lz in 0..=2usize {
+            for c in one {
+                jobs.push((BaseKind::Addr(p, lz), c));
+            }
+            for c in two {
+                jobs.push((BaseKind::Addr(p, lz), c));
+            }
+            if lz == 0 && tier.is_thorough() && (p == 0x00 || p == 0x6f) {
+                jobs.push((BaseKind::Addr(p, lz), Cks::EndsZero(3)));
+            }
+        }
+    }
+    for compressed in [false, true] {
+        for lead in [None, Some(0x80u8), Some(0x00)] {
+            for c in one {
+                jobs.push((BaseKind::Wif(compressed, lead), c));
+            }
+            for c in two {
+                jobs.push((BaseKind::Wif(compressed, lead), c));
+            }
+            if lead.is_none() && tier.is_thorough() {
+                jobs.push((BaseKind::Wif(compressed, lead), Cks::EndsZero(3)));
+            }
+        }
+    }
+    jobs
+}
+
+/// (strings with description, base strings). The searches are independent and deterministic; they run on their own threads.
+fn alias_strings(tier: Tier) -> (Vec<(String, String)>, Vec<String>) {
+    let jobs = alias_jobs(tier);
+    let bases: Vec<(String, Vec<u8>)> = std::thread::scope(|s| {
+        let hs: Vec<_> = jobs.iter().map(|(k, c)| s.spawn(move || search_base(*k, *c))).collect();
+        hs.into_iter().map(|h| h.join().expect("C07 setup: base search thread")).collect()
+    });
+    let mut out = vec![];
+    let mut seen = std::collections::HashSet::new();
+    for (label, data) in &bases {
+        for t in 0..ALIAS_TRANSFORMS {
+            let (what, d) = alias_transform(data, t);
+            let s = b58::b58_encode(&d);
+            if seen.insert(s.clone()) {
+                out.push((s, format!("{}: {} -> {} bytes {}", label, what, d.len(), hx(&d))));
+            }
+        }
+    }
+    (out, bases.iter().map(|(l, d)| format!("{} = {}", b58::b58_encode(d), l)).collect())
 }
 
 fn build(tier: Tier) -> Tables {
@@ -375,7 +630,48 @@ fn build(tier: Tier) -> Tables {
     })
     .expect("C07 setup: cannot build a SighashSignature");
 
-    Tables { keys, n_unlock_keys, hashes, wif_bases, addr_bases, wif_sub, addr_sub, len_strings, xs, pk_len_tags, sig }
+    // hashes with zero bytes at the END (the leading-zero rows above have them in front)
+    // -- appended after the key hashes so that the rows above keep their positions
+    for z in 1..=19usize {
+        let mut h = [0u8; 20];
+        for i in 0..20 - z {
+            h[i] = 1 + i as u8;
+        }
+        hashes.push((format!("{} trailing zero bytes, head counter", z), h));
+    }
+    // hashes whose first / last bytes repeat the prefix byte of the case (built per case)
+    let dyn_hashes: Vec<(&'static str, usize, usize)> = vec![
+        ("first byte equals the prefix byte", 1, 0),
+        ("first two bytes equal the prefix byte", 2, 0),
+        ("last byte equals the prefix byte", 0, 1),
+        ("first and last two bytes equal the prefix byte", 2, 2),
+    ];
+
+    // byte-pattern keys go behind the core keys; the derived alphabets above were built from the core keys only
+    let n_core_keys = keys.len();
+    for (label, k32) in pattern_keys(tier) {
+        if !keys.iter().any(|r| r.key32 == k32) {
+            keys.push(key_row(&label, &secp::from_be(&k32)));
+        }
+    }
+
+    let (alias_strings, alias_bases) = alias_strings(tier);
+
+    Tables { keys, n_core_keys, alias_strings, alias_bases, dyn_hashes, n_unlock_keys, hashes, wif_bases, addr_bases, wif_sub, addr_sub, len_strings, xs, pk_len_tags, sig }
+}
+
+/// Hash row `hi` of the addr-prefix-hash product: a fixed hash, or one that repeats the prefix byte.
+fn hash_row(t: &Tables, hi: usize, prefix: u8) -> (String, [u8; 20]) {
+    if hi < t.hashes.len() {
+        return t.hashes[hi].clone();
+    }
+    let (name, lead, trail) = t.dyn_hashes[hi - t.hashes.len()];
+    let f = filler32();
+    let mut h = [0u8; 20];
+    h.copy_from_slice(&f[..20]);
+    h[..lead].fill(prefix);
+    h[20 - trail..].fill(prefix);
+    (name.to_string(), h)
 }
 
 fn tables(tier: Tier) -> Arc<Tables> {
@@ -552,6 +848,8 @@ fn why_invalid(s: &str, wif: bool) -> &'static str {
     match b58::b58_decode(s) {
         None => "non-base58-character",
         Some(d) if d.len() < 4 => "shorter-than-a-checksum",
+        // a decoded length no address / WIF can have is the cause whatever the last four bytes are
+        Some(d) if (!wif && d.len() != 25) || (wif && d.len() != 37 && d.len() != 38) => "payload-length",
         Some(d) => {
             if b58::check_decode(s).is_none() {
                 "checksum"
@@ -773,11 +1071,12 @@ pub fn spaces(tier: Tier) -> Vec<Space> {
     // 2. every prefix byte × hashes: to_string / from_string / set_chain_params / locking script
     {
         let t = t.clone();
-        let nh = t.hashes.len() as u64;
+        let nh = (t.hashes.len() + t.dyn_hashes.len()) as u64;
         v.push(Space::new("addr-prefix-hash", 256 * nh, move |case, acc| {
             let c = coords(case.idx, &[nh, 256]);
-            let (hname, h) = &t.hashes[c[0] as usize];
             let prefix = c[1] as u8;
+            let (hname, h) = hash_row(&t, c[0] as usize, prefix);
+            let (hname, h) = (&hname, &h);
             acc.evaluations += 1;
             acc.nontrivial_structural += 1;
             let ref_s = b58::address_encode(prefix, h);
@@ -932,6 +1231,23 @@ pub fn spaces(tier: Tier) -> Vec<Space> {
         }));
     }
 
+    // 6b. byte-level truncation / extension of valid Base58Check data whose checksum (payload) ends or starts with
+    // zero bytes, to both decoders: no shorter or longer byte string may be taken for the original
+    {
+        let t2 = t.clone();
+        let n = t.alias_strings.len() as u64;
+        v.push(Space::new("b58-trunc-ext", n * 2, move |case, acc| {
+            let c = coords(case.idx, &[n, 2]);
+            let (s, desc) = &t2.alias_strings[c[0] as usize];
+            acc.sample(case.idx, || json!({"space": "b58-trunc-ext", "string": s, "what": desc, "decoder": if c[1] == 0 {"P2PKHAddress::from_string"} else {"PrivateKey::from_wif"}}));
+            if c[1] == 0 {
+                check_addr_string(acc, case, s, json!(desc), 12);
+            } else {
+                check_wif_string(acc, case, s, json!(desc), 13);
+            }
+        }));
+    }
+
     // 7. public-key candidates: every length 0..=66 × tag, body = prefix of x(G) || y(G)
     {
         let t2 = t.clone();
@@ -970,7 +1286,7 @@ pub fn spaces(tier: Tier) -> Vec<Space> {
     // 9. 65 bytes: tags × points of K × coordinate variants
     {
         let t2 = t.clone();
-        let nk = t.keys.len() as u64;
+        let nk = t.n_core_keys as u64;
         v.push(Space::new("pk65", nk * 7 * 6, move |case, acc| {
             let c = coords(case.idx, &[nk, 7, 6]);
             let k = &t2.keys[c[0] as usize];
@@ -1027,15 +1343,22 @@ pub fn spaces(tier: Tier) -> Vec<Space> {
 
 fn run(ctx: &Ctx) -> Report {
     let mut r = Report::new(
-        "full cartesian products: keys K × compression (private key bytes/hex/WIF round trips, derived SEC1 key, HASH160, address string, locking script, compress/decompress inverses); every prefix byte 0..255 × 20-byte hashes with 0..20 leading zero bytes and the hashes of K (to_string, from_string∘to_string, set_chain_params, locking script); prefix × key × form × 4 candidate public keys × 2 address constructions for get_unlocking_script; every single-character substitution by 63 characters at every position of valid WIFs and addresses; payloads of every length 0..40 under a valid checksum fed to both string decoders; public-key candidates of every length 0..66, every tag byte × x alphabet at length 33, 7 tags × points of K × 6 coordinate variants at length 65. Non-trivial = the case reached the decision under test (valid object compared field by field, or a string that reaches the checksum comparison, or a 33/65-byte candidate); cases are distinct by construction of the products.",
+        "full cartesian products: keys K × compression (private key bytes/hex/WIF round trips, derived SEC1 key, HASH160, address string, locking script, compress/decompress inverses); every prefix byte 0..255 × 20-byte hashes with 0..20 leading zero bytes and the hashes of K (to_string, from_string∘to_string, set_chain_params, locking script); prefix × key × form × 4 candidate public keys × 2 address constructions for get_unlocking_script; every single-character substitution by 63 characters at every position of valid WIFs and addresses; payloads of every length 0..40 under a valid checksum fed to both string decoders; byte-level truncation / extension (drop 1..4 bytes at either end, add 1..4 zero bytes at either end, drop / insert a byte in front of the checksum, append 01) of valid address and WIF byte strings found by a counter search with the reference such that the checksum ends / starts with one or two zero bytes and the payload has 0..2 zero bytes (address) or a 00 / 80 byte (WIF) behind the prefix, fed to both string decoders; private keys K include byte-pattern keys (each framing byte 80 / 01 / 00 as a run of 1..3 at the start, at the end, alone at interior positions, at both ends, everywhere, and across hex byte boundaries); hashes include 1..19 trailing zero bytes and hashes whose first / last bytes repeat the prefix byte; public-key candidates of every length 0..66, every tag byte × x alphabet at length 33, 7 tags × points of K × 6 coordinate variants at length 65. Non-trivial = the case reached the decision under test (valid object compared field by field, or a string that reaches the checksum comparison, or a 33/65-byte candidate); cases are distinct by construction of the products.",
     );
     let t = tables(ctx.tier);
     r.bounds = json!({
         "keys": t.keys.iter().map(|k| k.label.clone()).take(40).collect::<Vec<_>>(),
         "n_keys": t.keys.len(),
+        "n_core_keys": t.n_core_keys,
+        "byte_pattern_keys": t.keys[t.n_core_keys..].iter().map(|k| format!("{} = {}", k.label, hex::encode(k.key32))).take(200).collect::<Vec<_>>(),
+        "hash_trailing_zero_bytes": "1..=19",
+        "prefix_dependent_hashes": t.dyn_hashes.iter().map(|d| d.0).collect::<Vec<_>>(),
+        "trunc_ext_bases": t.alias_bases,
+        "trunc_ext_transforms": (0..ALIAS_TRANSFORMS).map(|i| alias_transform(&[0u8; 25], i).0).collect::<Vec<_>>(),
+        "n_trunc_ext_strings": t.alias_strings.len(),
         "n_keys_in_unlock_product": t.n_unlock_keys.min(t.keys.len()),
         "prefix_bytes": "0..=255",
-        "n_hashes": t.hashes.len(),
+        "n_hashes": t.hashes.len() + t.dyn_hashes.len(),
         "hash_leading_zero_bytes": "0..=20",
         "substitution_characters": String::from_utf8_lossy(SUBST),
         "wif_bases": t.wif_bases,
